@@ -21,6 +21,7 @@ import (
 	"io"
 	"os"
 	"os/exec"
+	"runtime/debug"
 	"sort"
 	"strconv"
 	"strings"
@@ -197,8 +198,10 @@ func decScheds(s string) map[int][]int {
 			bad("sched")
 		}
 		var ts []int
-		for _, t := range strings.Split(p[1], ".") {
-			ts = append(ts, atoi(t))
+		if p[1] != "" {
+			for _, t := range strings.Split(p[1], ".") {
+				ts = append(ts, atoi(t))
+			}
 		}
 		m[atoi(p[0])] = ts
 	}
@@ -655,6 +658,9 @@ func replayLine(w *gen.Writer, f []string) {
 const chunkSize = 150
 
 func main() {
+	// Go 1.23's runtime can live-lock under faketime while a GC cycle terminates (bgsweep runnable,
+	// forEachP never completing); the harness processes are short-lived and small: run without GC.
+	debug.SetGCPercent(-1)
 	log.SetOutput(io.Discard)
 	// utils' timestamp updater must start at a whole virtual second (process start), before any sleep
 	utils.StartTimeStampUpdater()
